@@ -8,6 +8,7 @@ package regset
 import (
 	"context"
 	"fmt"
+	"google.golang.org/genproto/googleapis/api/serviceconfig"
 	"net/http"
 	"sync"
 	"sync/atomic"
@@ -65,6 +66,26 @@ func files() []*vschema.File {
 	}
 }
 
+// filesV2 is the newer revision of service A that back-end b4 serves
+// (version skew between replicas): Get announces one more binding.
+func filesV2() *vschema.File {
+	return &vschema.File{Path: "vf/rsa.proto", Pkg: "vf.rs", Services: []vschema.Service{{Name: "A", Methods: []vschema.Method{
+		{Name: "Get", In: "vf.Req", Out: "vf.Rsp", Rule: with(get("/rs/a/{a}"), get("/rs/alt/{a}/{n}"), post("/rs/a", "*"), get("/rs/x/{a}"), get("/rs/v2/{a}"))},
+		{Name: "Put", In: "vf.Req", Out: "vf.Rsp", Rule: post("/rs/put", "*")},
+	}}}}
+}
+
+// serviceConfig adds routes through ServiceConfigOption: they belong to the
+// method like its annotations, whoever serves it.
+func serviceConfig() *serviceconfig.Service {
+	sel := func(s string, r *annotations.HttpRule) *annotations.HttpRule { r.Selector = s; return r }
+	return &serviceconfig.Service{Http: &annotations.Http{Rules: []*annotations.HttpRule{
+		sel("vf.rs.A.Get", get("/cfg/a/{a}")),
+		sel("vf.rs.A.Put", post("/cfg/put", "*")),
+		sel("vf.rs.B.Get", get("/cfg/b/{a}")),
+	}}}
+}
+
 // tagged answers every unary call with its tag and the method name.
 type tagged struct{ tag string }
 
@@ -91,7 +112,7 @@ type Env struct {
 	Files   *protoregistry.Files // for the local service
 }
 
-var svcOf = map[string]string{"b1": "A", "b2": "A", "b3": "B", "b3x": "B", "bc": "C", "local": "A"}
+var svcOf = map[string]string{"b1": "A", "b2": "A", "b4": "A", "b3": "B", "b3x": "B", "bc": "C", "local": "A"}
 
 // tagOf is the tag the provider's replies carry: b3x is another connection
 // to the server behind b3.
@@ -119,8 +140,16 @@ func NewEnv() (*Env, error) {
 		return nil, err
 	}
 	e.Files = reg
-	for _, b := range []string{"b1", "b2", "b3", "bc"} {
-		bk, err := be.Start(b, true, be.Svc{SD: e.SD[svcOf[b]], Impl: tagged{b}})
+	fdV2, err := filesV2().Build()
+	if err != nil {
+		return nil, fmt.Errorf("descriptor build v2: %w", err)
+	}
+	for _, b := range []string{"b1", "b2", "b3", "bc", "b4"} {
+		sd := e.SD[svcOf[b]]
+		if b == "b4" {
+			sd = fdV2.Services().Get(0)
+		}
+		bk, err := be.Start(b, true, be.Svc{SD: sd, Impl: tagged{b}})
 		if err != nil {
 			e.Close()
 			return nil, err
